@@ -9,7 +9,22 @@ from lib.report import REPO, VENV_PY, VERIF
 _memo = {}
 
 
+def _replay_op(rep, r):
+    """Tensor._op's failure scenarios map onto public calls (runtime/c_op_replay.py): a lock leak is observable on the caller's array"""
+    key = "op:" + ("result" if "raises=result" in r.name else "kernel")
+    if key not in _memo:
+        env = dict(os.environ, PYTHONPATH=os.path.join(REPO, "src") + os.pathsep + VERIF)
+        p = subprocess.run([VENV_PY, os.path.join(VERIF, "runtime", "c_op_replay.py"), json.dumps(dict(scenario=r.name))], capture_output=True, text=True, env=env, timeout=300)
+        lines = [l for l in p.stdout.splitlines() if l.startswith("{")]
+        _memo[key] = json.loads(lines[-1]) if lines else dict(confirmed=False, note=f"replay produced no result: {p.stderr[-300:]}")
+    out = _memo[key]
+    path = rep.write_replay(r.name, dict(obligation=r.to_json(), solver_output=r.model, confirmed=out.get("confirmed", False), replay=out))
+    return path, out.get("confirmed", False), out
+
+
 def _replay(rep, r):
+    if "failed_op_releases" in r.name or r.name.startswith("C13.op"):
+        return _replay_op(rep, r)
     if not r.name.startswith("C13.inplace"):
         return None, False, "structural obligation: no input to replay"
     key = json.dumps({k: r.meta.get(k) for k in ("exception", "self_is_view", "prior_grad")}, sort_keys=True)
